@@ -1,3 +1,3 @@
 SPECIFICATION Spec
-CONSTANTS Lines <- Id7  Prog <- ProgPush  BpSets <- BpsPush  MaxReq = 2  Deviations <- StepOutDev  Fuel = 40
+CONSTANTS LibLines <- NoLib  Lines <- Id7  Prog <- ProgPush  BpSets <- BpsPush  MaxReq = 2  Deviations <- StepOutDev  Fuel = 40
 INVARIANT StepExact
